@@ -33,6 +33,13 @@ fn tags_compatible(b: &Value, v: &Value) -> bool {
             return false;
         }
     }
+    // a closed alternative cannot apply to an object with a member it does not declare
+    if b.get("additionalProperties") == Some(&Value::Bool(false)) {
+        let declared = b.get("properties").and_then(|p| p.as_object());
+        if vo.keys().any(|k| declared.map(|d| !d.contains_key(k)).unwrap_or(true)) {
+            return false;
+        }
+    }
     if let Some(props) = b.get("properties").and_then(|p| p.as_object()) {
         for (k, ps) in props {
             let fixed = ps.get("enum").and_then(|e| e.as_array()).filter(|e| e.len() == 1).map(|e| e[0].clone()).or_else(|| ps.get("const").cloned());
